@@ -314,6 +314,7 @@ def doc_operation_types(track_rst="/repo/docs/track.rst"):
 # --------------------------------------------------------------------------- generator
 
 ODD_STRINGS = ["plain", "with space", "naïve café", 'q"uote', "back\\slash", "tab\there", "日本", "a/b:c", "100%"]
+MARKUP_STRINGS = ["R&D", "<logs-{now/d}>", "a>b", "x&y<z", "1 < 2 && 3 > 2"]
 SIMPLE_WORDS = ["alpha", "beta", "gamma", "delta", "logs", "geo", "nyc", "so", "pmc", "http"]
 TIME_KEYS = ("warmup-iterations", "iterations", "warmup-time-period", "time-period", "ramp-up-time-period")
 EXP_KEY = {"warmup-iterations": "wi", "iterations": "it", "warmup-time-period": "wtp", "time-period": "tp", "ramp-up-time-period": "rup"}
@@ -420,6 +421,9 @@ class Gen:
         else:
             if rng.random() < 0.4:
                 p[rng.choice(["index", "pipeline"])] = self.pstr()
+            if rng.random() < 0.12:
+                # characters that mean something to HTML / XML but nothing to a track: they must come out of the template as they went in
+                p["pipeline"] = rng.choice(MARKUP_STRINGS)
             if rng.random() < 0.3:
                 p["settings"] = {"a.b": rng.randint(0, 3), "nested": {"x": [1, 2, {"y": None}]}}
         if rng.random() < 0.2:
@@ -447,8 +451,10 @@ class Gen:
         for k, v in self.op_params(typ).items():
             if isinstance(v, int) and not isinstance(v, bool) and k in ("bulk-size", "pages", "duration", "retries"):
                 s, e = self.pv(v, k.replace("-", "_"))
-            elif isinstance(v, str) and k in ("index", "pipeline") and re.fullmatch(r"[a-z0-9]+", v):
+            elif isinstance(v, str) and k in ("index", "pipeline") and (re.fullmatch(r"[a-z0-9]+", v) or v in MARKUP_STRINGS):
                 s, e = self.pv(v, k)
+                if v in MARKUP_STRINGS and isinstance(s, P):
+                    self.features.add("param-value-with-markup-characters")
             elif isinstance(v, bool) and k == "cache":
                 s, e = self.pv(v, k)
             else:
@@ -1403,6 +1409,9 @@ def m_docs_mandatory(rng, js, up):
 # ---- schema-driven mutations
 JSON_TYPES = {
     "string": "s", "integer": 7, "number": 1.5, "boolean": True, "object": {"k": 1}, "array": [1], "null": None,
+    # track-schema.json declares JSON-schema draft 04, where "integer" is a JSON number without fraction part: 4.0 (what Jinja's true division
+    # produces) is a number but no integer. Wrong wherever only "integer" is allowed.
+    "integral-float": 4.0,
 }
 
 
